@@ -188,7 +188,10 @@ def topk_trigger(r, layout):
 def stage_t(chk, tier, bindir, rnd, stats):
     """larger random data over more shards / zones; recorded and re-judged by TLC (SliceTrace)"""
     q = tier == "quick"
-    runs = [({"x": "int", "y": "string", "w": "int"}, 150, 3, 3, "mixed"), ({"x": "u64s", "y": "datetime", "w": "int"}, 120, 2, 5, "l1")]
+    runs = [({"x": "int", "y": "string", "w": "int"}, 150, 3, 3, "mixed"), ({"x": "u64s", "y": "datetime", "w": "int"}, 120, 2, 5, "l1"),
+            # large zones and deep pages without filters: the top-k zone pre-selection has to keep every
+            # zone that can contribute to rows m..m+n
+            ({"x": "int2", "y": "string2", "w": "int"}, 480, 8, 3, "deep-l0"), ({"x": "int", "y": "string", "w": "int"}, 640, 16, 2, "deep-mixed")]
     if not q:
         runs += [({"x": "int2", "y": "string2", "w": "int"}, 400, 3, 8, lay) for lay in ("mixed", "l0x3", "restart")]
     trace = core.WORK / "c10" / "trace.ndjson"
@@ -201,7 +204,15 @@ def stage_t(chk, tier, bindir, rnd, stats):
                  "f": {"x": rnd.choice([0, 1, 2, 3, 4]), "y": rnd.choice([0, 1, 2, 3, 4]), "w": rnd.choice([1, 2, 3])}} for k in range(1, n + 1)]
         recs.append({"data": data})
         reqs = []
-        for _ in range(60 if q else 200):
+        deep = layout.startswith("deep")
+        if deep:
+            layout = layout[len("deep-"):]
+            for _ in range(50 if q else 200):
+                lim = rnd.choice([1, 1, 2, 3, 5])
+                off = rnd.choice([0, 7, 20, 40, 41, 64, 100, 200])
+                reqs.append({"kind": "ordered", "f": rnd.choice(["x", "y"]), "desc": rnd.random() < 0.5, "off": off, "lim": lim,
+                             "where": {"tag": "true"}, "ctx": "*"})
+        for _ in range(0 if deep else (60 if q else 200)):
             where = rnd.choice([{"tag": "true"}, {"tag": "cmp", "f": "w", "op": rnd.choice(["<", ">=", "="]), "v": rnd.choice([1, 2, 3])}])
             if rnd.random() < 0.8:
                 lim = rnd.choice([-1, 0, 1, 2, 5, 17, 50, n, n + 5])
